@@ -84,7 +84,7 @@ theorem sp_getLast (s : Str) : ∀ cur : Str, ' ' ∉ cur →
     by_cases hc : c = ' '
     · subst hc
       simp only [sp, if_true]
-      rw [List.getLast?_cons_of_ne_nil (sp_ne_nil _ _)] <;> try exact sp_ne_nil _ _
+      rw [List.getLast?_cons_of_ne_nil (sp_ne_nil _ _)]
       rw [ih [] (by simp)]
       simp only [afterLastBlank, List.reverse_nil, List.nil_append, List.reverse_append, List.reverse_cons,
         List.reverse_reverse, List.append_assoc, List.singleton_append]
@@ -162,7 +162,7 @@ theorem splitlinesAux_char (c : Char) (cs cur : Str) (hc : isLineBreak c = false
     splitlinesAux (c :: cs) cur = splitlinesAux cs (c :: cur) := by
   rw [splitlinesAux]
   · simp [hc]
-  · rintro cs' rfl; revert hc; decide
+  · rintro cs' rfl; exact absurd hc (by decide)
 
 theorem splitlinesAux_lf (cs cur : Str) :
     splitlinesAux ('\n' :: cs) cur = cur.reverse :: splitlinesAux cs [] := by
@@ -174,7 +174,7 @@ theorem splitlinesAux_cr (cs cur : Str) (h : cs.head? ≠ some '\n') :
     splitlinesAux ('\r' :: cs) cur = cur.reverse :: splitlinesAux cs [] := by
   rw [splitlinesAux]
   · simp [isLineBreak]
-  · rintro cs' h'; simp at h'; subst h'; simp at h
+  · rintro cs' - rfl; simp at h
 
 theorem splitlinesAux_line (l : Str) (hl : NoBreak l) : ∀ (rest cur : Str),
     splitlinesAux (l ++ rest) cur = splitlinesAux rest (l.reverse ++ cur) := by
@@ -184,5 +184,100 @@ theorem splitlinesAux_line (l : Str) (hl : NoBreak l) : ∀ (rest cur : Str),
     intro rest cur
     rw [List.cons_append, splitlinesAux_char c _ _ (hl c (by simp)), ih (fun d hd => hl d (by simp [hd]))]
     simp
+
+theorem join_single (sep l : Str) : join sep [l] = l := by simp [join, List.intercalate]
+
+theorem join_cons_cons (sep l l' : Str) (r : List Str) :
+    join sep (l :: l' :: r) = l ++ (sep ++ join sep (l' :: r)) := by
+  simp [join, List.intercalate]
+
+/-- what `splitlines` makes of lines joined by a separator: a final empty line is lost (as in Python:
+`"a\n".splitlines() == ["a"]`) -/
+def dropFinalEmpty (ls : List Str) : List Str := if ls.getLast? = some [] then ls.dropLast else ls
+
+theorem dropFinalEmpty_of_ne (ls : List Str) (h : ls.getLast? ≠ some []) : dropFinalEmpty ls = ls := by
+  simp [dropFinalEmpty, h]
+
+theorem dropFinalEmpty_cons_cons (l l' : Str) (r : List Str) :
+    dropFinalEmpty (l :: l' :: r) = l :: dropFinalEmpty (l' :: r) := by
+  simp only [dropFinalEmpty, List.getLast?_cons_cons, List.dropLast_cons_cons]
+  split_ifs <;> rfl
+
+/-- a line separator: behaves like one in front of anything that follows it in a joined text -/
+structure IsSep (sep : Str) : Prop where
+  split : ∀ rest cur, (sep = ['\n'] ∨ rest.head? ≠ some '\n') →
+    splitlinesAux (sep ++ rest) cur = cur.reverse :: splitlinesAux rest []
+  head : sep = ['\n'] ∨ ∃ c r, sep = c :: r ∧ c ≠ '\n'
+
+theorem isSep_lf : IsSep py!"\n" := ⟨fun rest cur _ => splitlinesAux_lf rest cur, Or.inl rfl⟩
+theorem isSep_crlf : IsSep py!"\r\n" :=
+  ⟨fun rest cur _ => splitlinesAux_crlf rest cur, Or.inr ⟨'\r', ['\n'], rfl, by decide⟩⟩
+theorem isSep_cr : IsSep py!"\r" :=
+  ⟨fun rest cur h => splitlinesAux_cr rest cur (h.resolve_left (by decide)), Or.inr ⟨'\r', [], rfl, by decide⟩⟩
+
+theorem head_join (sep : Str) (hs : IsSep sep) : ∀ ls : List Str, (∀ l ∈ ls, NoBreak l) →
+    sep = ['\n'] ∨ (join sep ls).head? ≠ some '\n' := by
+  intro ls hls
+  rcases hs.head with h | ⟨c, r, rfl, hc⟩
+  · exact Or.inl h
+  refine Or.inr ?_
+  have hline : ∀ l : Str, NoBreak l → ∀ rest : Str, rest.head? ≠ some '\n' → (l ++ rest).head? ≠ some '\n' := by
+    intro l hl rest hr
+    cases l with
+    | nil => simpa using hr
+    | cons d l =>
+      simp only [List.cons_append, List.head?_cons, ne_eq, Option.some.injEq]
+      rintro rfl; exact absurd (hl '\n' (by simp)) (by decide)
+  match ls, hls with
+  | [], _ => simp [join]
+  | [l], hls => rw [join_single]; simpa using hline l (hls l (by simp)) [] (by simp)
+  | l :: l' :: r', hls =>
+    rw [join_cons_cons]
+    exact hline l (hls l (by simp)) _ (by simpa using hc)
+
+theorem splitlinesAux_join (sep : Str) (hs : IsSep sep) : ∀ ls : List Str, ls ≠ [] → (∀ l ∈ ls, NoBreak l) →
+    splitlinesAux (join sep ls) [] = dropFinalEmpty ls := by
+  intro ls
+  induction ls with
+  | nil => intro h; exact absurd rfl h
+  | cons l r ih =>
+    intro _ hls
+    cases r with
+    | nil =>
+      rw [join_single]
+      have := splitlinesAux_line l (hls l (by simp)) [] []
+      rw [List.append_nil] at this
+      rw [this, splitlinesAux_nil]
+      by_cases hl : l = [] <;> simp [dropFinalEmpty, hl]
+    | cons l' r =>
+      have hr : ∀ x ∈ l' :: r, NoBreak x := fun x hx => hls x (by simp [List.mem_cons.mp hx])
+      rw [join_cons_cons, splitlinesAux_line l (hls l (by simp)), hs.split _ _ (head_join sep hs _ hr),
+        ih (by simp) hr, dropFinalEmpty_cons_cons]
+      simp
+
+/-- **deliverable 2** (general form): `splitlines` undoes joining lines with LF, CRLF or CR, except that a
+final empty line is lost -/
+theorem splitlines_join (sep : Str) (hs : IsSep sep) (ls : List Str) (hls : ∀ l ∈ ls, NoBreak l) :
+    splitlines (join sep ls) = dropFinalEmpty ls := by
+  cases ls with
+  | nil => simp [splitlines, join, dropFinalEmpty, splitlinesAux_nil]
+  | cons l r => exact splitlinesAux_join sep hs _ (by simp) hls
+
+/-- **deliverable 2** (C06, line-ending style): for lines without line-break characters whose last line is
+not empty, CRLF-, LF- and CR-terminated texts split into the same lines, namely the given ones -/
+theorem splitlines_crlf (ls : List Str) (hls : ∀ l ∈ ls, NoBreak l) (hlast : ls.getLast? ≠ some []) :
+    splitlines (join py!"\r\n" ls) = ls ∧ splitlines (join py!"\n" ls) = ls ∧ splitlines (join py!"\r" ls) = ls := by
+  rw [splitlines_join _ isSep_crlf ls hls, splitlines_join _ isSep_lf ls hls, splitlines_join _ isSep_cr ls hls,
+    dropFinalEmpty_of_ne ls hlast]
+  exact ⟨rfl, rfl, rfl⟩
+
+/-- a terminator after the last line makes no difference (files normally end with a line break) -/
+theorem splitlines_join_terminated (sep : Str) (hs : IsSep sep) (ls : List Str) (hls : ∀ l ∈ ls, NoBreak l) :
+    splitlines (join sep (ls ++ [[]])) = ls := by
+  rw [splitlines_join sep hs _ (by
+    intro l hl; rcases List.mem_append.mp hl with h | h
+    · exact hls l h
+    · simp at h; subst h; intro c hc; cases hc)]
+  simp [dropFinalEmpty]
 
 end Contracts.Reader
